@@ -157,6 +157,9 @@ Definition restart_engine (c : val) : val :=
               let tg := match b with Badger => tag "restart-badger" | Pebble => tag "restart-pebble"
                                 | Bolt => tag "restart-bolt" | Redis => tag "restart-redis" end in
               if superseded_writes es then verdict 1 tg nontriv [VN 7]
+              else if clean_start_leftover astate0 es then
+                (if superseded_delivery es then verdict 3 tg nontriv [VB (tag "KF_C20_takeover_delivery"); VN 6]
+                 else verdict 1 tg nontriv [VN 6])
               else if negb spec_ok then
                 match kf_name maxcap aws with
                 | Some k => if model_ok && mem_ok then verdict 3 tg nontriv [VB k; VN (first_diff 0 o1 o2)]
@@ -199,6 +202,9 @@ Definition crash_engine (c : val) : val :=
                                 | Bolt => tag "crash-bolt" | Redis => tag "crash-redis" end in
               if negb count_ok then verdict 2 tg nontriv [VN 3]
               else if superseded_writes es then verdict 1 tg nontriv [VN 7]
+              else if clean_start_leftover astate0 es then
+                (if superseded_delivery es then verdict 3 tg nontriv [VB (tag "KF_C20_takeover_delivery"); VN 6]
+                 else verdict 1 tg nontriv [VN 6])
               else if negb spec_ok then
                 match kf_name maxcap aws with
                 | Some kf => if model_ok then verdict 3 tg nontriv [VB kf; VN (first_diff 0 (observe_astate maxcap (arun aws)) o2)]
